@@ -76,14 +76,14 @@ ARITH_TRUSTED = [
     "floats as reals (A1); a//b is floor of the real quotient",
 ]
 PROPS["C03"] = {
-    "tasks": lambda tier: VP(UDB + ":UnitDatabase.Sum", 5) + VP(UDB + ":UnitDatabase.Subtract", 5) + VP(OPS_KEY, 10) + VP("barril.units._array:Array._DoOperation#operators", 12) + [("lemma_arith", {})],
+    "tasks": lambda tier: VP(UDB + ":UnitDatabase.Sum", 5) + VP(UDB + ":UnitDatabase.Subtract", 5) + VP(OPS_KEY, 10) + VP("barril.units._array:Array._DoOperation#operators", 12) + [("lemma_arith", {}), V(UDB + ":UnitDatabase._ConvertMatchedValue")],
     "level": "proof",
     "level_text": "UnitDatabase.Sum/Subtract and the Scalar operators + and - (through Python's operator dispatch) are verified against a functional contract for operand quantities that are symbolic in every category, unit, exponent (unbounded integers), caption and value: the result has the left operand's categories and exponents with the matched units, the value is v1 +/- v2 re-expressed by the conversions unit -> matched unit, different dimensions raise. A log-domain lemma over the contract shows the result's base magnitude is the sum/difference of the operands' (hence a+b = b+a and (a+b)-b = a physically). Per shape (number of composing entries per operand: 0, 1, 2; thorough adds more pairs) this is a complete proof; across shapes it is a bound. An entry re-expressed with an exponent other than 1 scales by the unit ratio raised to that exponent (scale-only pairs; through the _ConvertWithExp contract) - the defect found here (exponent ignored) is repaired by f801d71.",
     "level_note": "shape-bounded: operands with at most 2 composing entries (quick: 10 shape pairs for + and -, 9 for the others; thorough: 14); preconditions N1 (a quantity-type name that is also a category names itself) and normalised operands; Arrays (element by element, any length and container kind) through the Array operator contract shared with C10; floats are reals",
     "trusted": ARITH_TRUSTED,
 }
 PROPS["C04"] = {
-    "tasks": lambda tier: VP(UDB + ":UnitDatabase.Multiply", 4) + VP(UDB + ":UnitDatabase.Divide", 5) + VP(UDB + ":UnitDatabase.FloorDivide", 5) + VP(OPS_KEY, 10) + VP("barril.units._array:Array._DoOperation#operators", 12) + [("lemma_arith", {})],
+    "tasks": lambda tier: VP(UDB + ":UnitDatabase.Multiply", 4) + VP(UDB + ":UnitDatabase.Divide", 5) + VP(UDB + ":UnitDatabase.FloorDivide", 5) + VP(OPS_KEY, 10) + VP("barril.units._array:Array._DoOperation#operators", 12) + [("lemma_arith", {}), V(UDB + ":UnitDatabase._ConvertMatchedValue")],
     "level": "proof",
     "level_text": "UnitDatabase.Multiply/Divide/FloorDivide and the Scalar operators *, /, // are verified against a functional contract for symbolic operand quantities (all names, units, unbounded integer exponents and values symbolic): the result's composing map is exactly the merged map (exponents added/subtracted per category, entries with zero exponent or zero joined exponent dropped), its exponent per quantity type is the sum/difference of the operands', no zero exponent survives, the value is v1 op v2 after matching; division by a zero amount raises. Log-domain lemmas (every re-expressed entry contributes e*(L(u)-L(m)), any exponent) over the contract give 'base magnitudes multiply/divide' and the dimension rule for every shape up to (2,2) (thorough (3,3)). An entry re-expressed with an exponent other than 1 scales by the unit ratio raised to that exponent (scale-only pairs; through the _ConvertWithExp contract) - the defect found here (exponent ignored) is repaired by f801d71. a**n is not yet under contract.",
     "level_note": "shape-bounded as C03; preconditions N1 and normalised operands; floats are reals; a//b = floor of the real quotient",
@@ -101,7 +101,7 @@ PROPS["C09"] = {
 AR = "barril.units._array:Array"
 AOPS_KEY = AR + "._DoOperation#operators"
 PROPS["C10"] = {
-    "tasks": lambda tier: VP(AOPS_KEY, 12),
+    "tasks": lambda tier: VP(AOPS_KEY, 12) + [V(UDB + ":UnitDatabase._ConvertMatchedValue")],
     "level": "proof",
     "level_text": "Array OP Array and Array OP number (OP in + - * / //) for list-, tuple- and numpy-backed values of symbolic, unbounded length: Array._DoOperation and _ValueGenerator are executed from their real AST, the per-element loop by a map rule (generic index, quantified reading of element-dependent raises), the database operations by their contracts (proved in C03/C04). Proved: the result is a new Array whose quantity is the one the Scalar operation yields, whose element j is F(a_j, b_j) for the same value function F the Scalar contract uses, whose container kind is tuple iff all iterated operands are tuples (ndarray if any operand is), independent of the operands' container kinds; empty operands give an empty result; operands of different lengths raise ValueError; different dimensions raise InvalidOperationError. Array.FromScalars and unit conversion of Arrays are not yet under contract.",
     "level_note": "operand quantities: simple x simple (thorough adds derived shapes); numpy division excluded (zero elements give inf/nan, outside the real model); numpy elementwise arithmetic assumed (A5); floats are reals",
@@ -114,7 +114,7 @@ STD_TRUSTED = [
     "floats as reals (A1)",
 ]
 PROPS["C05"] = {
-    "tasks": lambda tier: [V(UDB + ":UnitDatabase.GetInfo"), V(UDB + ":UnitDatabase.Convert"), V(UDB + ":UnitDatabase.CheckCategoryUnit"), V(QM + ":Quantity.__init__"), *VP(QM + ":ObtainQuantity", 16), V(QM + ":Quantity.ConvertScalarValue"), V(SC + ".__lt__#ordering")]
+    "tasks": lambda tier: [V(QM + ":Quantity._CreateDerived"), V(UDB + ":UnitDatabase.GetInfo"), V(UDB + ":UnitDatabase.Convert"), V(UDB + ":UnitDatabase.CheckCategoryUnit"), V(QM + ":Quantity.__init__"), *VP(QM + ":ObtainQuantity", 16), V(QM + ":Quantity.ConvertScalarValue"), V(SC + ".__lt__#ordering")]
     + VP(UDB + ":UnitDatabase.Sum", 5) + VP(UDB + ":UnitDatabase.Subtract", 5) + VP(OPS_KEY, 10) + VP(AOPS_KEY, 12),
     "level": "proof",
     "level_text": "Exceptional postconditions, proved of the real bodies for arbitrary well-formed registries and symbolic arguments, in both directions (raises when it must, returns when it must not): GetInfo raises InvalidUnitError iff the unit does not resolve inside the (existing) quantity type and InvalidQuantityTypeError iff the type does not exist, with the explicit Unknown exemption; Convert, Quantity.ConvertScalarValue and Scalar.GetValue inherit; CheckCategoryUnit raises iff the unit is not valid for the category on the memo-hit and the memo-miss path; Quantity.__init__/ObtainQuantity raise for a unit outside the category's quantity type (after the legacy rewrite); adding/subtracting Scalars or Arrays of different dimensions raises InvalidOperationError with dimensionless operands exempt; ordering Scalars of different quantity types raises TypeError. On every path, raising or not, the registry is proved unchanged except for consistent memo/intern-table insertions, the operand value objects and the operand quantities are unchanged (frame obligations).",
@@ -140,7 +140,7 @@ PROPS["C15"] = {
     "trusted": STD_TRUSTED,
 }
 PROPS["C12"] = {
-    "tasks": lambda tier: [V(QM + ":Quantity.CheckValue"), V(QM + ":Quantity.ConvertScalarValue"), V(SC + ".CheckValidity"), V("barril.units._array:Array._DoValidateValues#flat")] + VP("barril.units._fraction_scalar:FractionScalar#like-a-scalar", 7) + VP(ADDCAT, 16) + table_tasks("table_c14"),
+    "tasks": lambda tier: [V(QM + ":Quantity.CheckValue"), V(QM + ":Quantity.ConvertScalarValue"), V(SC + ".CheckValidity"), V("barril.units._array:Array._DoValidateValues#flat"), V("barril.units._array:Array.CreateCopy#validity-memo")] + VP("barril.units._fraction_scalar:FractionScalar#like-a-scalar", 7) + VP(ADDCAT, 16) + table_tasks("table_c14"),
     "level": "proof",
     "level_text": "Quantity.CheckValue is verified against the functional contract 'accepts exactly when the amount re-expressed in the category's default unit satisfies the limits': for a symbolic category (limits present/absent, inclusive/exclusive, symbolic reals), a symbolic unit of its type and an extended float (NaN, +inf, -inf flags) it returns iff both limits hold for y = conv(unit -> default unit)(value), otherwise raises QuantityValidationError carrying y, the violated limit (min before max) and the operator matching exclusivity, in symbols or words; NaN satisfies no limit; derived quantities are accepted. AddCategory is proved never to register a default unit outside the category's quantity type or a default value outside its own limits (W3 of the new entry, for all combinations of given / inherited / absent limits, default value and default unit), and the shipped tables satisfy the same row by row. Scalar.CheckValidity / IsValid and FractionScalar.CheckValidity are proved to be exactly CheckValue of the stored amount (derived quantities always valid). Array.CheckValidity / IsValid on flat lists, tuples and ndarrays of unbounded length whose elements are finite numbers or NaN: the real scan (skip leading NaNs, then running minimum/maximum over the same iterator) is verified with two loop invariants (every consumed element is NaN; min <= every non-NaN element seen <= max, both attained) - init, preservation and exhaustion obligations - and, with C01's monotonicity of conversions, 'accepted iff every non-NaN amount satisfies the limits' is proved for every length, order and container kind.",
     "level_note": "unit-independence is by construction of the contract (the verdict is a function of conv(unit -> default unit)(value) only) together with C01's monotonicity lemma (assumed as a precondition where the scan needs it); floats are reals with NaN/inf flags; Array elements finite or NaN (no infinities); the tuple-of-tuples branch of the scan and the ValidateValues memo across calls are replayed natively (probe validity) but not under contract; which limit a rejected Array reports is not specified",
@@ -164,7 +164,7 @@ PROPS["C11"] = {
     "trusted": STD_TRUSTED + ["pickle protocol (A8)", "numpy elementwise arithmetic (A5)"],
 }
 PROPS["C13"] = {
-    "tasks": lambda tier: [V(SC + ".GetAbstractValue"), V(AVQ + ".CreateCopy"), V(SC + ".__lt__#ordering"), V(AVQ + ".GetValidUnits"), V(QM + ":Quantity#value-semantics"), V(QM + ":Quantity.CheckValue"), V(QM + ":Quantity.ConvertScalarValue"), V(UDB + ":UnitDatabase.Convert")] + VP(FA + "#operations", 15) + VP(OPS_KEY, 10) + VP(AOPS_KEY, 12),
+    "tasks": lambda tier: [V(SC + ".GetAbstractValue"), V(AVQ + ".CreateCopy"), V(SC + ".__lt__#ordering"), V(AVQ + ".GetValidUnits"), V(QM + ":Quantity#value-semantics"), V(QM + ":Quantity.CheckValue"), V(QM + ":Quantity.ConvertScalarValue"), V(UDB + ":UnitDatabase.Convert"), V(UDB + ":UnitDatabase._ConvertMatchedValue")] + VP(FA + "#operations", 15) + VP(OPS_KEY, 10) + VP(AOPS_KEY, 12),
     "level": "proof",
     "level_text": "Frame (modifies) obligations on every value-object operation under contract, with operand containers of symbolic unbounded length in region 'parameter': Scalar GetValue / CreateCopy / comparison / all ten arithmetic operators (incl. reflected and number operands), Array arithmetic for list-, tuple- and numpy-backed values (every write inside _DoOperation, _ValueGenerator and the database operations is checked to hit only objects allocated during the call), FixedArray CreateCopy / ChangingIndex / IndexAsScalar / __reduce__ / arithmetic, Quantity copy/eq/hash/reduce, UnitDatabase.Convert (results are new containers), CheckValue. Each proves: the receiver's and the other operand's fields are the same objects/values afterwards, the container contents are unchanged (array equality of the element maps), operand quantities are unchanged, results are new objects with new containers. CreateCopy() == self and reduce-rebuild == self are proved for Scalar-like simple/derived/empty quantities and FixedArray.",
     "level_note": "FractionScalar operations and formatting (str/repr of Arrays) not yet under contract; numpy aliasing is modelled by container identity tokens; arithmetic shape-bounded as C03; floats are reals",
@@ -249,6 +249,10 @@ DEPS = {
     "C11": DEP_CONV + DEP_OBTAIN,
     "C12": DEP_CONV,
     "C13": DEP_OBTAIN + DEP_DBOPS_FRAME,
+    # the second reading of C06 builds the amount with Scalar * and /: the value clauses of Multiply / Divide and
+    # of the matching step's re-expression carry it
+    "C06": [(UDB + ":UnitDatabase._ConvertMatchedValue", 1, ["*/post?power/scaled*", "*/post?plain/*"], _NOTCONV, None), (UDB + ":UnitDatabase.Multiply", 4, ["*/post?result/*"], [], None), (UDB + ":UnitDatabase.Divide", 5, ["*/post?result/*", "*/post?division-by-zero?*"], [], None)],
+    "C15": [(fq, n, ["*/frame?*"], [], None) for fq, n in _DBOPS],
     "C16": DEP_LEGACY,
     "C17": DEP_CONV + DEP_OBTAIN,
     "C18": DEP_CONV,
